@@ -41,7 +41,7 @@ Verdict(in) ==
   ELSE IF \E i \in 1..(Len(in.words) - 1) : in.words[i].k = "prim" /\ in.words[i].okind = "exec" /\ ExecTerminator(in.words[i].args) = 0 THEN "unspec"
   ELSE CliClass(Classified(in))
 
-InDomain(in) == TRUE
+InDomain(in, obs) == TRUE
 
 Conforms(in, obs) ==
   /\ "panic" \notin DOMAIN obs
